@@ -120,6 +120,19 @@ class C01(core.PropertyCheck):
         for kind, text in sorted(snippets.items()):
             for mode in ("page", "inline"):
                 yield {"kind": "doc", "text": text, "mode": mode, "domain": None, "record": True, "origin": "snippet:" + kind}
+        if tier != "search":
+            # roman.py exhaustively: every number with a numeral (and the two neighbours outside), every string over the
+            # numeral letters up to length 4, and the classic malformed numerals
+            import itertools
+            for n in range(0, 5002):
+                yield {"kind": "enum", "what": "to_roman", "n": n}
+            bad = ["IIII", "VX", "IC", "", "MMMMM", "MMMM", "IIV", "VV", "LL", "DD", "XXXX", "CCCC", "IL", "XM", "MCMXCIXI", "iv", "Iv", " IV", "IV ", "I V",
+                   "MMMMCMXCIX", "MMMMCMXCIXI", "XXI", "N", "0", "Ⅳ", "IVXLCDM", "MDCLXVI", "MCDXLIV", "CMCM", "CMD", "CDC", "XCX", "XLX", "IXI", "IVI"]
+            for L in range(0, 5):
+                for t in itertools.product("IVXLCDM", repeat=L):
+                    bad.append("".join(t))
+            for s_ in bad:
+                yield {"kind": "enum", "what": "from_roman", "s": s_}
         n_kernel = 0 if tier == "search" else max(300, budget // 6)
         n_docs = budget - n_kernel if tier != "search" else budget
         for i in range(n_docs):
@@ -156,17 +169,17 @@ class C01(core.PropertyCheck):
         g = c01gen.Gen(rng)
         if what == "parse":
             seq = rng.choice(SEQS + ["auto", "bad", "lowerroman", "upperroman"])
-            n = rng.choice([1, 2, 3, 4, 5, 7, 8, 9, 10, 18, 19, 20, 21, 26, 27, 40, 99, 400, 3999, 0]) if rng.random() < 0.8 else rng.randint(0, 5000)
+            n = rng.choice([1, 2, 3, 4, 5, 7, 8, 9, 10, 18, 19, 20, 21, 26, 27, 40, 99, 400, 3999, 4999, 5000, 0]) if rng.random() < 0.7 else rng.randint(0, 5200)
             text = g.enumerator(seq, n)
             if len(text) > 40 and rng.random() < 0.7:
                 text = text[:40]
             return {"kind": "enum", "what": "parse", "text": text, "fmt": rng.choice(["parens", "rparen", "period"]),
                     "expected": rng.choice([None, None] + SEQS + (["zz"] if rng.random() < 0.1 else []))}
         if what == "to_roman":
-            return {"kind": "enum", "what": "to_roman", "n": rng.choice([0, 1, 7, 8, 9, 19, 20, 21, 22, 100, rng.randint(0, 30)])}
+            return {"kind": "enum", "what": "to_roman", "n": rng.choice([0, 1, 7, 8, 9, 19, 20, 21, 22, 100, 4999, 5000, 10 ** 6, rng.randint(0, 6000)])}
         if what == "from_roman":
-            return {"kind": "enum", "what": "from_roman", "s": rng.choice([c01gen.roman(rng.randint(1, 30)), "VIII", "VII", "IIII", "", "vii", "XX", "XXI", "IC"])}
-        return {"kind": "enum", "what": "make", "ordinal": rng.choice([1, 2, 8, 9, 20, 21, 26, 27, 28, 100, rng.randint(1, 40)]),
+            return {"kind": "enum", "what": "from_roman", "s": rng.choice([c01gen.roman(rng.randint(1, 5200)), c01gen.mutate(rng, c01gen.roman(rng.randint(1, 4999))), "VIII", "VII", "IIII", "", "vii", "XX", "XXI", "IC"])}
+        return {"kind": "enum", "what": "make", "ordinal": rng.choice([1, 2, 8, 9, 20, 21, 26, 27, 28, 100, 4999, 5000, 5001, rng.randint(1, 40), rng.randint(1, 6000)]),
                 "seq": rng.choice(SEQS + ["#"] + (["zz"] if rng.random() < 0.05 else [])), "fmt": rng.choice(["parens", "rparen", "period"])}
 
     def gen_validate(self, rng):
@@ -259,7 +272,11 @@ class C01(core.PropertyCheck):
             res = states.Body.make_enumerator(stub, case["ordinal"], case["seq"], case["fmt"])
             return {"ok": None if res is None else res[0]}
         except Exception as e:
-            return {"err": type(e).__name__}
+            # the model's error channel has the classes the handlers name; a subclass (roman.OutOfRangeError,
+            # roman.InvalidRomanNumeralError are ValueErrors) is reported as the first of those in its MRO
+            known = ("ParserError", "ValueError", "TypeError", "KeyError")
+            name = next((c.__name__ for c in type(e).__mro__ if c.__name__ in known), type(e).__name__)
+            return {"err": name, "cls": type(e).__name__}
 
     def _validator(self, vk):
         from snooty import specparser
@@ -345,13 +362,14 @@ class C01(core.PropertyCheck):
                 return None
             if case["what"] == "parse":
                 m = model if "err" in model else {"seq": model["seq"], "ordinal": model["ordinal"]}
+                impl = {k: v for k, v in impl.items() if k != "cls"}
                 return None if m == impl else f"parse_enumerator: model {m} impl {impl}"
             if case["what"] == "make" and "ok" in model and "ok" in impl and model["ok"] is not None:
                 from snooty.tinydocutils import states
                 info = states.Body.enum.formatinfo[case["fmt"]]
                 m = {"ok": info.prefix + model["ok"] + info.suffix + " "}
                 return None if m == impl else f"make_enumerator: model {m} impl {impl}"
-            im = {k: v for k, v in impl.items() if k != "back"}
+            im = {k: v for k, v in impl.items() if k not in ("back", "cls")}
             return None if model == im else f"{case['what']}: model {model} impl {im}"
         if kind == "validate":
             if "err" in model or "err" in impl:
